@@ -120,6 +120,9 @@ type nleg struct {
 func (nl *nleg) harnessFail(format string, a ...interface{}) {
 	msg := fmt.Sprintf(format, a...)
 	nl.r.Inconclusive("node leg harness: " + msg)
+	if os.Getenv("C12_TIMING") != "" {
+		fmt.Fprintln(os.Stderr, "node leg harness:", msg)
+	}
 	panic(harnessPanic(msg))
 }
 
@@ -265,6 +268,26 @@ func (nl *nleg) setup(scs []*scen) {
 	nl.inject(t, "setup")
 }
 
+// resolveIDs finds the ids of the outputs the setup transaction of the head block created for the scenarios
+func (nl *nleg) resolveIDs(scs []*scen) {
+	fresh := map[fix.Out]cipher.SHA256{}
+	for id, ux := range nl.sh.ux {
+		if ux.Head.BkSeq == nl.sh.headSeq {
+			fresh[fix.Out{Addr: ux.Body.Address, Coins: ux.Body.Coins, Hours: ux.Body.Hours}] = id
+		}
+	}
+	for _, sc := range scs {
+		for _, o := range sc.outs {
+			id, found := fresh[o]
+			if !found {
+				nl.harnessFail("setup output missing after block")
+			}
+			sc.ids = append(sc.ids, id)
+		}
+		sort.Slice(sc.ids, func(i, j int) bool { return bytes.Compare(sc.ids[i][:], sc.ids[j][:]) < 0 })
+	}
+}
+
 func (nl *nleg) tick() {
 	defer timed("tick")()
 	bank := nl.bankOuts()
@@ -350,7 +373,8 @@ func dropletString(d uint64) string {
 	return fmt.Sprintf("%d.%06d", d/1000000, d%1000000)
 }
 
-func (nl *nleg) apiCreate(q *request, wp visor.CreateTransactionParams) (*coin.Transaction, int, string, error) {
+// apiBody is the JSON request body of the two create-transaction endpoints
+func apiBody(q *request, wp visor.CreateTransactionParams) map[string]interface{} {
 	hs := map[string]interface{}{"type": q.typ}
 	if q.mode != "" {
 		hs["mode"] = q.mode
@@ -376,30 +400,46 @@ func (nl *nleg) apiCreate(q *request, wp visor.CreateTransactionParams) (*coin.T
 			hs = append(hs, h.Hex())
 		}
 		body["unspents"] = hs
-	} else {
+	} else if len(wp.Addresses) > 0 {
 		as := []string{}
 		for _, a := range wp.Addresses {
 			as = append(as, a.String())
 		}
 		body["addresses"] = as
 	}
+	if wp.IgnoreUnconfirmed {
+		body["ignore_unconfirmed"] = true
+	}
+	return body
+}
+
+// apiPost sends a JSON body and returns status and raw response
+func (nl *nleg) apiPost(path string, body map[string]interface{}) (int, []byte, error) {
 	b, _ := json.Marshal(body)
-	req, err := http.NewRequest("POST", "http://"+nl.n.APIAddr+"/api/v2/transaction", bytes.NewReader(b))
+	req, err := http.NewRequest("POST", "http://"+nl.n.APIAddr+path, bytes.NewReader(b))
 	if err != nil {
-		return nil, 0, "", err
+		return 0, nil, err
 	}
 	req.Header.Set("Content-Type", "application/json")
 	resp, err := nl.client.Do(req)
 	if err != nil {
-		return nil, 0, "", err
+		return 0, nil, err
 	}
 	rb, _ := ioutil.ReadAll(resp.Body)
 	resp.Body.Close()
+	return resp.StatusCode, rb, nil
+}
+
+func (nl *nleg) apiCreate(q *request, wp visor.CreateTransactionParams) (*coin.Transaction, int, string, error) {
+	status, rb, err := nl.apiPost("/api/v2/transaction", apiBody(q, wp))
+	if err != nil {
+		return nil, 0, "", err
+	}
 	var ar apiResponse
 	if err := json.Unmarshal(rb, &ar); err != nil {
-		return nil, resp.StatusCode, string(rb), fmt.Errorf("response is not JSON: %v", err)
+		return nil, status, string(rb), fmt.Errorf("response is not JSON: %v", err)
 	}
-	if resp.StatusCode == 200 && ar.Data != nil && ar.Error == nil {
+	if status == 200 && ar.Data != nil && ar.Error == nil {
 		t, err := coin.DeserializeTransactionHex(ar.Data.EncodedTransaction)
 		if err != nil {
 			return nil, 200, "", fmt.Errorf("encoded_transaction does not decode: %v", err)
@@ -410,7 +450,7 @@ func (nl *nleg) apiCreate(q *request, wp visor.CreateTransactionParams) (*coin.T
 	if ar.Error != nil {
 		msg = ar.Error.Message
 	}
-	return nil, resp.StatusCode, msg, nil
+	return nil, status, msg, nil
 }
 
 func classifyNodeErr(err error) (string, bool) {
@@ -661,7 +701,7 @@ func (nl *nleg) request(sc *scen, via string, q *request, p transaction.Params, 
 	return
 }
 
-func nodeLeg(r *vf.Run, nScen int) {
+func nodeLeg(r *vf.Run, nScen, nPool int) {
 	dir := vf.TempDir("c12")
 	defer os.RemoveAll(dir)
 	l := newLocal()
@@ -752,22 +792,7 @@ func nodeLeg(r *vf.Run, nScen int) {
 		nl.sweep()
 		nl.setup(scs)
 		nl.block(nl.sh.headTime + 1 + uint64(rrng.Intn(100)))
-		fresh := map[fix.Out]cipher.SHA256{}
-		for id, ux := range nl.sh.ux {
-			if ux.Head.BkSeq == nl.sh.headSeq {
-				fresh[fix.Out{Addr: ux.Body.Address, Coins: ux.Body.Coins, Hours: ux.Body.Hours}] = id
-			}
-		}
-		for _, sc := range scs {
-			for _, o := range sc.outs {
-				id, found := fresh[o]
-				if !found {
-					nl.harnessFail("setup output missing after block")
-				}
-				sc.ids = append(sc.ids, id)
-			}
-			sort.Slice(sc.ids, func(i, j int) bool { return bytes.Compare(sc.ids[i][:], sc.ids[j][:]) < 0 })
-		}
+		nl.resolveIDs(scs)
 		// phase 1: outputs of age zero
 		for _, sc := range scs {
 			if sc.phase == 1 {
@@ -799,6 +824,10 @@ func nodeLeg(r *vf.Run, nScen int) {
 	// confirm what is left in the pool: everything admitted must also make it into a block
 	if nl.poolN > 0 {
 		nl.block(nl.sh.headTime + 1)
+	}
+	// the same entry points against a pool that already spends some of the offered outputs
+	if nPool > 0 {
+		poolLeg(nl, nPool)
 	}
 	if os.Getenv("C12_TIMING") != "" {
 		fmt.Fprintln(os.Stderr, "node leg timing:", timing)
